@@ -212,6 +212,8 @@ class Session:
             return a < b
         a = a.item() if isinstance(a, np.generic) else a
         b = b.item() if isinstance(b, np.generic) else b
+        if isinstance(a, C) or isinstance(b, C):
+            return C("const", _c(a).holds(0.0) == _c(b).holds(0.0))
         if isinstance(a, bool) or isinstance(b, bool):
             return C("const", bool(a) == bool(b))
         return C(kind, a, b, self.scale if scale is None else scale)
@@ -304,7 +306,7 @@ class Session:
         """boolean value (SymBool / bool) as a condition"""
         if self.sym:
             return b if isinstance(b, (SymBool, bool)) else bool(b)
-        return C("const", bool(b))
+        return bool(b)
 
     def decide(self, cond):
         """python bool for a condition: forks in symbolic mode"""
